@@ -144,17 +144,33 @@ func Load(dir, goos, goarch string) *World {
 			}
 		}
 	}
-	for _, fn := range w.ModFns {
-		for _, b := range fn.Blocks {
-			for _, in := range b.Instrs {
-				if st, ok := in.(*ssa.Store); ok {
-					k := w.locKey(st.Addr)
-					w.stores[k] = append(w.stores[k], st)
+	theWorld = w
+	// The store index is keyed by location keys, and keys of loads may themselves depend on
+	// the index (single-store locals, write-once fields). Build it, forget every memo that
+	// was computed against the incomplete index, and build it again against the full one.
+	for pass := 0; pass < 2; pass++ {
+		stores := map[string][]*ssa.Store{}
+		for _, fn := range w.ModFns {
+			for _, b := range fn.Blocks {
+				for _, in := range b.Instrs {
+					if st, ok := in.(*ssa.Store); ok {
+						k := w.locKey(st.Addr)
+						stores[k] = append(stores[k], st)
+					}
 				}
 			}
 		}
+		w.stores = stores
+		w.keyMemo = map[ssa.Value]string{}
+		w.escMemo = map[ssa.Value]bool{}
+		w.stableMemo = map[string]bool{}
+		if w.synth != nil {
+			w.synth.wo = nil
+			w.synth.factsAt = map[*ssa.BasicBlock][]Fact{}
+			w.synth.hf = map[hfKey][]Fact{}
+		}
+		w.factMemo = map[*ssa.Function]*funcFacts{}
 	}
-	theWorld = w
 	w.inferRenames()
 	if w.ren != nil && len(w.ren.notes) > 0 && os.Getenv("TURNCHECK_QUIET") == "" {
 		fmt.Fprintf(os.Stderr, "note: %d renamed member(s) recognised: %s\n", len(w.ren.notes), strings.Join(w.ren.notes, "; "))
